@@ -80,3 +80,9 @@ TEXT["C09"] = {
     "design_ref": "DESIGN.md section 3, C09",
     "level_note": "Exhaustive over the small universe only; larger sets and arbitrary strings are sampled.",
 }
+TEXT["C19"] = {
+    "technique": "property-based testing (rapid): generated config documents and helper behaviours, loaded 16 times through LoadWithEnv with varied lookup orders, against an independent reference implementation of the stated precedence",
+    "level_text": "Config documents are generated from the schema (host keys, URL keys with paths and trailing slashes, '//' keys without scheme, colliding keys, explicit + derived entries; username/password, base64 auth incl. ':' and NUL inside passwords, identity / registry tokens, credsStore, credHelpers incl. empty and equal-to-store) with helper behaviours per (helper, host); each document is written to a temp DOCKER_CONFIG, decoded 16 times and every host looked up in a different order each time; every answer must equal an independent 40-line reference of the stated precedence, which cannot depend on map order.",
+    "design_ref": "DESIGN.md section 3, C19",
+    "level_note": "The docker-credential-* exec runner is replaced by a function; only documented error classes are compared (entry equality; ErrHelperNotFound / helper error / failure).",
+}
